@@ -114,6 +114,7 @@ def plan(tier, seed):
     for a in range(len(U.STR_CORE)):
         for b in range(len(U.STR_CORE)):
             jobs.append(('s1core', Lc, a, b))
+    jobs += [('boundary', k, 6) for k in range(6)]
     jobs += [('look', k, 16) for k in range(16)]
     jobs += [('fold', 4 if q else 6, k, 64) for k in range(64)]
     jobs += [('thr', k) for k in range(12)]
@@ -157,6 +158,16 @@ def run_job(job, T):
             s = U.STR_CORE[a] + U.STR_CORE[b] + ''.join(tail)
             check_string(T, 'strings-core', s, STR_OPTS, STYLE_OPTS[:2])
         T.sample('strings-core', {'string': s})
+    elif kind == 'boundary':
+        # range-boundary characters alone and next to a letter, a space, a break and each other
+        opts = opt_sets(1) + str_product(False)[::3]
+        s = None
+        for i, ch in enumerate(U.BOUNDARY):
+            if i % job[2] != job[1]:
+                continue
+            for s in [ch, 'a' + ch, ch + 'a', ch + ' ', ' ' + ch, ch + '\n', 'a ' + ch + ' b', ch * 3] + [ch + o for o in U.BOUNDARY[::5]]:
+                check_string(T, 'boundary-chars', s, opts, STR_OPTS)
+        T.sample('boundary-chars', {'string': s})
     elif kind == 'look':
         opts = opt_sets(1)
         for i, s in enumerate(U.lookalikes()):
